@@ -62,7 +62,7 @@ def decl_refs(p):
     return out
 
 
-def split(p, rng, k, lay, drop_pub=None, drop_import=None):
+def split(p, rng, k, lay, drop_pub=None, drop_import=None, force_pub=()):
     """partition the declarations over k modules; returns (files [(name, source)], model info)"""
     names = [c[0] for c in p['consts']] + [f['name'] for f in p['fns']]
     where = {n: rng.below(k) for n in names}
@@ -74,6 +74,7 @@ def split(p, rng, k, lay, drop_pub=None, drop_import=None):
             if r in where and where[r] != where[n]:
                 pub.add(r)
                 imports[where[n]].add(where[r])
+    pub |= set(force_pub)
     if drop_pub is not None and drop_pub in pub:
         pub.discard(drop_pub)
     files = []
@@ -161,7 +162,29 @@ def main():
                     agreeing += 1
                     dist["split:agree"] += 1
                 else:
-                    rep.violation("split:%d:%s:%s" % (i, part, o), {
+                    key = "split:%d:%s:%s" % (i, part, o)
+                    # known finding F37: a pub constant whose initialiser uses a private constant of its own module is
+                    # spliced into the importer as an expression, where the private name does not resolve.
+                    consts = set(c[0] for c in p['consts'])
+                    hidden = set(r for n in pub if n in consts for r in refs.get(n, ()) if r in consts and r not in pub
+                                 and where[r] == where[n])
+                    changed = True
+                    while changed:
+                        changed = False
+                        for n in list(hidden):
+                            for r in refs.get(n, ()):
+                                if r in consts and r not in pub and r not in hidden and where[r] == where[n]:
+                                    hidden.add(r)
+                                    changed = True
+                    if hidden and 402 in (codes_of(kv(ha)[1]) if ha.startswith("err") else []):
+                        files_n, _w, _p, _i, _r = split(p, rng.fork("s%d_%d" % (i, part)), k, lay, force_pub=hidden)
+                        fields = []
+                        for j in o:
+                            fields += [files_n[j][0], esc(files_n[j][1])]
+                        ha_n = run_harness_serial(["alpha\trun\t" + "\t".join(fields)])[0]
+                        if runlib.impl_obs(ha_n)[:3] == mo:
+                            key = "c12:pub-constant-initialised-from-private-constant"
+                    rep.violation(key, {
                         "why": "the program split over %d files (order %s) does not behave like the single-file program" % (k, o),
                         "files": dict(files), "order": o, "single_file": single, "harness_request": rq,
                         "model_request": "run\t" + progen.sx_prog(p), "implementation": ha[:1500], "model": ma[:800]})
@@ -212,6 +235,15 @@ def main():
                     rep.violation("noimport:%d:%s:%s" % (i, part, dm), {
                         "why": "module m%d no longer imports m%d (items reachable only transitively): model expects %s" % (dm[0], dm[1], "rejection" if expect_reject else "acceptance"),
                         "files": dict(files3), "harness_request": rq, "model_request": mreq, "implementation": ha[:600], "model_bits": bits})
+    # probe of known finding F37 (so that it is reported on every run, whatever the random partitions were)
+    probe = [("lib.pn", "const A: i32 = 2;\npub const B: i32 = A + 1;\n"),
+             ("main.pn", 'import "lib.pn";\nfn main() -> i32\n{\n\treturn: B\n}\n')]
+    pa = run_harness_serial(["alpha\trun\t" + "\t".join(x for nm, src in probe for x in (nm, esc(src)))])[0]
+    ph, pd = kv(pa)
+    if not (ph == "ok" and pd.get("status") == "3"):
+        rep.violation("c12:pub-constant-initialised-from-private-constant", {"files": dict(probe), "implementation": pa[:300]})
+    else:
+        rep.notes.append("known finding F37 no longer reproduces on its probe")
     # history independence: a module's IR must not depend on unrelated modules compiled before it by the same Compiler
     mods = []
     for i in range(120 if thorough else 12):
